@@ -46,7 +46,66 @@ def run(p: Project, tier: str) -> Result:
         check_wiring(p, w, r)
     check_generators(p, r)
     check_consult_sites(p, r)
+    check_policy_stored_unchanged(p, r)
     return r
+
+
+def check_policy_stored_unchanged(p, r):
+    """R9: the constructor stores the edge-selection policy it is given - for every legal value.  `x or DEFAULT`, `x if x else DEFAULT` turn the constant index 0
+    into the default policy; decided by evaluating the stored expression for representative arguments (0, 1, a policy name)."""
+    from .common import eval_guard, eval_guard_value, NotEvaluable
+    r.rule('C15.R9', 'the constructor stores the edge-selection policy argument unchanged (constant index 0 included)', 4)
+
+    def value_of(e, bind):
+        if isinstance(e, ast.BoolOp):
+            last = None
+            for v in e.values:
+                last = value_of(v, bind)
+                if isinstance(e.op, ast.Or) and last:
+                    return last
+                if isinstance(e.op, ast.And) and not last:
+                    return last
+            return last
+        if isinstance(e, ast.IfExp):
+            try:
+                t = eval_guard(e.test, bind)
+            except NotEvaluable:
+                t = bool(value_of(e.test, bind))
+            return value_of(e.body if t else e.orelse, bind)
+        return eval_guard_value(e, bind)
+    for ci in sorted(p.classes.values(), key=lambda c: (c.module, c.name)):
+        if not ci.module.startswith('nodes/'):
+            continue
+        init = ci.methods.get('__init__')
+        if init is None:
+            continue
+        params = [a.arg for a in init.node.args.args]
+        for attr in ('in_edge_selection', 'out_edge_selection'):
+            if attr not in params:
+                continue
+            asg = [n for n in walk_no_nested(init.node) if isinstance(n, ast.Assign) and any(self_attr(t) == attr for t in n.targets)]
+            if not asg:
+                continue
+            r.analysed_functions.add(init.key)
+            key = f'{init.key}::stores({attr})'
+            bad = None
+            for v in (0, 1, 'ROUND_ROBIN', 'FIRST_AVAILABLE'):
+                def bind(t, v=v):
+                    if t == attr:
+                        return v
+                    raise KeyError(t)
+                try:
+                    got = value_of(asg[-1].value, bind)
+                except NotEvaluable:
+                    got = v            # not a function of the argument alone that we can evaluate: no verdict
+                if got != v or type(got) is not type(v):
+                    bad = (v, got)
+                    break
+            if bad:
+                r.fail('C15.R9', key, f'`self.{attr} = {ast.unparse(asg[-1].value)}` stores {bad[1]!r} when the node is given {bad[0]!r}: a constant index {bad[0]!r} '
+                                      f'is not obeyed (the node silently uses another policy)', src(ci.module), asg[-1].lineno)
+            else:
+                r.ok('C15.R9', key, 'stored unchanged for 0, 1 and policy names', src(ci.module), asg[-1].lineno)
 
 
 CONSUMERS = {'next', 'list', 'tuple', 'sorted', 'sum', 'any', 'all', 'min', 'max', 'zip', 'enumerate', 'set', 'iter', 'islice'}
